@@ -131,6 +131,18 @@ impl Client {
 
         if let RecordKind::Chunk = header.kind {
             let chunk: Chunk = try_deserialize_record(&record)?;
+            // the network is content-addressed: whatever a holder returned must hash to the
+            // address that was asked for
+            if *chunk.name() != addr {
+                error!(
+                    "Chunk fetched for {addr:?} hashes to {:?}, discarding it",
+                    chunk.name()
+                );
+                return Err(NetworkError::GetRecordError(
+                    ant_networking::GetRecordError::RecordDoesNotMatch(record),
+                )
+                .into());
+            }
             Ok(chunk)
         } else {
             error!(
